@@ -92,6 +92,12 @@ fn targets(x: &[f64]) -> Vec<f64> {
         t.push(x[0] - d);
         t.push(x[n - 1] + d);
     }
+    // a knot at zero is hit by the zero of either sign
+    for j in 0..n {
+        if x[j] == 0.0 {
+            t.push(-x[j]);
+        }
+    }
     t
 }
 
@@ -219,7 +225,7 @@ fn explore(run: &Run, x: &[f64], y: &[f64]) {
 }
 
 pub fn run(run: &Run) {
-    run.rule("every strictly increasing knot set of 2..=6 abscissae from {-4,-1,0,.5,1,3,10,1e6} × ordinate assignments over {-2,0,1,5} (all for ≤4 knots, patterned beyond) × targets {each knot, ±1 ulp, mid/quarter points, beyond both ends by 1 ulp / 1 / 1e6} × {Panic, Fill, Extrapolate} × {checked, unchecked}; regular and geometric grids of every length 2..=200; permutations and length mismatches must be rejected by the checked variant; every case is non-trivial");
+    run.rule("every strictly increasing knot set of 2..=6 abscissae from {-4,-1,0,.5,1,3,10,1e6} × ordinate assignments over {-2,0,1,5} (all for ≤4 knots, patterned beyond) × targets {each knot, ±1 ulp, mid/quarter points, beyond both ends by 1 ulp / 1 / 1e6} × {Panic, Fill, Extrapolate} × {checked, unchecked}; knot sets with equal end steps and an uneven interior, zeros of either sign as knots and targets; regular and geometric grids of every length 2..=200; permutations and length mismatches must be rejected by the checked variant; every case is non-trivial");
     let mut sets: Vec<Vec<f64>> = Vec::new();
     for k in 2..=6 {
         combinations(LATTICE.len(), k, |c| sets.push(c.iter().map(|&i| LATTICE[i]).collect()));
@@ -239,6 +245,29 @@ pub fn run(run: &Run) {
                 explore(run, x, &y);
             }
         }
+    });
+    // knot sets that look evenly spaced from their ends (first step = last step = mean step) but are not,
+    // and zeros of either sign as first / last / interior knots
+    let special: Vec<Vec<f64>> = vec![
+        vec![0.0, 1.0, 1.1, 1.2, 1.3, 5.0, 6.0],
+        vec![0.0, 2.0, 2.5, 3.0, 9.5, 10.0, 12.0],
+        vec![-3.0, -2.0, -1.75, 0.5, 0.75, 2.0, 3.0],
+        vec![10.0, 10.5, 10.625, 12.0, 12.5],
+        vec![0.0, 1.0, 1.5, 3.0, 4.0],
+        vec![0.0, 1.0, 3.0],
+        vec![-0.0, 1.0, 3.0],
+        vec![-4.0, -1.0, 0.0],
+        vec![-4.0, -1.0, -0.0],
+        vec![-1.0, -0.0, 2.0],
+    ];
+    special.par_iter().for_each(|x| {
+        let n = x.len();
+        for pat in 0..6 {
+            let y: Vec<f64> = (0..n).map(|i| YS[(i * (pat + 1) + pat) % 4] + if pat >= 4 { 0.1 * i as f64 } else { 0.0 }).collect();
+            explore(run, x, &y);
+        }
+        let yi: Vec<f64> = (0..n).map(|i| 10.0 * i as f64).collect();
+        explore(run, x, &yi);
     });
     run.sample(|| format!("x={:?} y=[-2,5,0] targets={:?} × 3 modes × checked/unchecked", &sets[30], targets(&sets[30])));
     // grids of every length
